@@ -38,6 +38,7 @@ def corpus():
     doc = json.load(open(os.path.join(HERE, "golden", "corpus.json")))
     extra = {
         "tests/grammars/meta.pest": [{"rule": "grammar_rules", "text": 'r = { "a" ~ b* | !c }'}, {"rule": "grammar_rules", "text": "//! d\nr = @{ 'a'..'z'{2,3} }"}, {"rule": "expression", "text": "a | b ~ PUSH(c)?"}],
+        "tests/grammars/grammar.pest": [{"rule": "node_tag", "text": "abc"}],  # the one tagged rule of the bundled grammars
         "tests/grammars/sql.pest": [],
         "tests/grammars/http.pest": [{"rule": "http", "text": "GET / HTTP/1.1\r\nHost: x\r\n\r\n"}],
         "tests/grammars/surround.pest": [],
@@ -259,7 +260,7 @@ def plan(tier: str, seed: int):
                     variants.append((rel, rname, path, kind, entries))
     total = len(variants)
     # every variant at the sites of rules that use the stack terminals (few rules; state-heavy) ...
-    is_prio = lambda v: v[0].endswith(("lists.pest", "surround.pest"))  # noqa: E731  (the two bundled stack grammars: every rule)
+    is_prio = lambda v: v[0].endswith(("lists.pest", "surround.pest")) or v[1] == "node_tag"  # noqa: E731  (the two bundled stack grammars: every rule; the one tagged rule)
     prio = [v for v in variants if is_prio(v)]
     rest = [v for v in variants if not is_prio(v)]
     singles = [v for v in rest if "+" not in v[3]]
